@@ -101,6 +101,7 @@ def digest(record, phase_index=-1):
         for obj, state, kind, unset_mode in node.get("sets", []):
             d.producers[(obj, state)].add(node["cls"])
     d.previous = record.get("case", {}).get("previous_results") or []
+    d.eager = bool(record.get("case", {}).get("eager"))
     return d
 
 
@@ -145,7 +146,13 @@ def oracle_c01(d):
             listed_but_not_permitted = [loc for loc in requirement["locs"] if loc in holders]
             passed_by = sorted({u["w"] for u in attempts if u["status"] in OK and u["s1"] is not None and u["s1"] < entry["s0"]})
             in_flight = [u for u in attempts if u["s1"] is None or u["s1"] > entry["s0"]]
-            if listed_but_not_permitted:
+            removed_again = [e for e in d.events if e["k"] == "store" and e["op"] == "remove" and (e["obj"], e["state"]) == key
+                             and e["seq"] < entry["s0"] and any(u["s1"] is not None and u["s1"] < e["seq"] for u in attempts if u["status"] in OK)]
+            if removed_again and not holders:
+                parsing = "up-front parsing" if d.eager else "lazy parsing"
+                same = "the same worker's" if all(e["loc"].startswith(entry["w"] + ":") for e in removed_again) else "another worker's"
+                mechanism = f"state produced in this run was removed from {same} pool by a cleanup before a pending dependant started ({parsing})"
+            elif listed_but_not_permitted:
                 mechanism = "state is in a listed source whose scope is not enabled in pool_scope"
             elif holders and not attempts:
                 others = [h for h in holders if not h.startswith(entry["w"] + ":") and not h.startswith(":")]
@@ -394,6 +401,10 @@ def oracle_c05(d, case):
                     uses_copy = e["w"] == owner or (event["loc"] in r["locs"] and location_scope_of(event["loc"], e["w"], d) in r["pool_scope"])
                     running = e["s0"] < event["seq"] and (e["s1"] is None or e["s1"] > event["seq"])
                     pending = e["s0"] > event["seq"]
+                    if running and e["w"] != owner:
+                        # a test of another worker fetched its copy when it started: it is done with this one
+                        counters["removals_during_foreign_run_after_fetch"] += 1
+                        continue
                     if uses_copy and (running or pending):
                         relevant.append((e, "running" if running else "pending"))
             if relevant:
